@@ -515,7 +515,11 @@ func (g *commonGen) template(w *World, name string, b int) []Step {
 			out = append(out, Step{Kind: "login", B: b, A: a, Sec: pw(a), RM: c.hasModule("remember")})
 		case 2:
 			if c.hasModule("remember") && !c.hasSetup("expire") {
-				out = append(out, Step{Kind: "login", B: b, A: a, Sec: pw(a), RM: true}, Step{Kind: "drop_session", B: b}, g.fill(w, "probe", b))
+				out = append(out, Step{Kind: "login", B: b, A: a, Sec: pw(a), RM: true}, Step{Kind: "drop_session", B: b})
+				if g.r.Bool() {
+					// otherwise the logout itself is the request the cookie authenticates
+					out = append(out, g.fill(w, "probe", b))
+				}
 			}
 		case 3:
 			if c.hasModule("oauth2") {
